@@ -33,7 +33,7 @@ ASSUMPTIONS = ['checksum bytes are masked in the byte comparison (the reader ign
 SHARDS = {'quick': 4, 'thorough': 16}
 REQUIRED_CLASSES = {'tif-normal': 1, 'tif-reversed': 1, 'trailer-recnum': 1, 'trailer-filenum': 1, 'trailer-checksum': 1,
                     'pr-len<32': 1, 'read-ends-on-pr-boundary': 1, 'producer-filewrite': 1,
-                    'pr-longer-than-32KiB': 1, 'reversed-first-next-multiple-of-256': 1, 'physical-records>65536': 1, 'checksum-compared-with-fresh-writer': 1}
+                    'pr-longer-than-32KiB': 1, 'reversed-first-next-multiple-of-256': 1, 'physical-records>65536': 1, 'checksum-compared-with-fresh-writer': 1, 'reversed-tif-file-longer-than-the-misread-first-next-word': 1}
 
 
 class KeepOpen(io.BytesIO):
@@ -438,12 +438,31 @@ def check_many_records(case, cc):
     check_write({'cfg': cfg, 'lrs': lrs}, cc)
 
 
+@st.composite
+def large_reversed_cases(draw):
+    """Byte-reversed TIF markers in a file large enough that the first marker's `next` word, read in the wrong byte order,
+    still points inside the file (first physical record of 0x100 * k - 12 bytes, file longer than k * 64 KiB).  Built when checked."""
+    cfg = dict(draw(G.phys_cfgs(tif_options=('reversed',))), pr_len=draw(st.integers(1024, 4000)))
+    return {'cfg': cfg, 'k': draw(st.sampled_from([2, 2, 3])), 'extra': draw(st.integers(100, 9000)), 'tail': draw(st.lists(st.integers(2, 300), min_size=0, max_size=3))}
+
+
+def check_large_reversed(case, cc):
+    cfg, k = case['cfg'], case['k']
+    t = G.trailer_len(cfg)
+    first = bytes([128, 0]) + bytes((5 * i) & 0xFF for i in range(0x100 * k - 12 - G.PRH_LEN - t - 2))
+    big = bytes([0, 0]) + bytes((7 * i + (i >> 8)) & 0xFF for i in range(k * 65536 + case['extra']))
+    lrs = [first, big] + [bytes([34, 0]) + bytes((j + i) & 0xFF for i in range(n - 2)) for j, n in enumerate(case['tail'])]
+    cc.cls('reversed-tif-file-longer-than-the-misread-first-next-word')
+    check_write({'cfg': cfg, 'lrs': lrs}, cc)
+
+
 def parts(tier):
     return [
         HypPart('write-vs-reference', write_cases(), check_write, 3000, 40000),
         MachinePart('read-history', ReadMachine, engine.replay_machine_case(start, step), 2500, 40000, steps=30),
         HypPart('strip-tif', strip_cases(), check_strip, 1500, 20000),
         HypPart('write-many-records', many_record_cases(), check_many_records, 4, 48),
+        HypPart('reversed-tif-large', large_reversed_cases(), check_large_reversed, 8, 64),
     ]
 
 
